@@ -114,6 +114,76 @@ var tagCursorType = reflect.TypeOf(tagCur{})
 
 func tagLess(a, b any) bool { return a.(tagCur).K < b.(tagCur).K }
 
+// anyCur is a third cursor type: its ordering key is INTERFACE-typed (a "sort by whatever column
+// the client chose" cursor) and holds an int64, a uint32, a float64 or a string, depending on the
+// edge; the application's comparator type-switches on it. (A plain `int` is not used: the unchanged
+// codec already hands an `int` inside an interface back as int64 — noted in design-notes/C09.md.)
+type anyCur struct {
+	Key any
+	Id  int64
+}
+
+func anyKeyOf(c int) any {
+	switch ((c/10)%4 + 4) % 4 {
+	case 0:
+		return int64(c)
+	case 1:
+		return uint32(c)
+	case 2:
+		return float64(c)
+	}
+	return "k" + strconv.Itoa(c)
+}
+
+func anyCurOf(c int) anyCur { return anyCur{anyKeyOf(c), int64(c) * 3} }
+
+var anyCursorType = reflect.TypeOf(anyCur{})
+
+// anyKeyValue is the application's reading of a key: exactly the four types it ever emits; a key of
+// any other type is not one of its keys and is not ordered relative to anything.
+func anyKeyValue(k any) (float64, bool) {
+	switch k := k.(type) {
+	case int64:
+		return float64(k), true
+	case uint32:
+		return float64(k), true
+	case float64:
+		return k, true
+	case string:
+		if strings.HasPrefix(k, "k") {
+			if n, err := strconv.Atoi(k[1:]); err == nil {
+				return float64(n), true
+			}
+		}
+	}
+	return 0, false
+}
+
+func anyLess(a, b any) bool {
+	x, ok1 := anyKeyValue(a.(anyCur).Key)
+	y, ok2 := anyKeyValue(b.(anyCur).Key)
+	return ok1 && ok2 && x < y
+}
+
+// anyKeyNumber is the HARNESS's lenient reading of a decoded key (any numeric kind), so that a key
+// that came back with another Go type is still attributed to its edge and the failure is reported
+// from the server's behaviour and from the round-trip oracle, not from the harness's bookkeeping.
+func anyKeyNumber(k any) (int, bool) {
+	if v, ok := anyKeyValue(k); ok {
+		return int(v), true
+	}
+	rv := reflect.ValueOf(k)
+	switch rv.Kind() {
+	case reflect.Int, reflect.Int8, reflect.Int16, reflect.Int32, reflect.Int64:
+		return int(rv.Int()), true
+	case reflect.Uint, reflect.Uint8, reflect.Uint16, reflect.Uint32, reflect.Uint64:
+		return int(rv.Uint()), true
+	case reflect.Float32, reflect.Float64:
+		return int(rv.Float()), true
+	}
+	return 0, false
+}
+
 // activeField selects the codec `emit` / `decode` speak: the cursor type of the connection field the
 // current case is served by (set by evalServedObs).
 var activeField string
@@ -121,6 +191,9 @@ var activeField string
 func emitFor(field string, c int) string {
 	if field == "tagCursor" {
 		return emitAny(tagCurOf(c))
+	}
+	if field == "anyCursor" {
+		return emitAny(anyCurOf(c))
 	}
 	return emitAny(curOf(c))
 }
@@ -338,6 +411,16 @@ func (w *world) addPlain(cfg *apifu.Config) {
 		EdgeCursor: func(edge any) any { return tagCurOf(edge.(item).C) },
 		EdgeFields: edgeFieldDefs(),
 	}))
+	cfg.AddQueryField("anyCursor", apifu.Connection(&apifu.ConnectionConfig{
+		NamePrefix: "AnyCursor",
+		ResolveAllEdges: func(ctx graphql.FieldContext) (any, func(a, b any) bool, error) {
+			w.allCalls++
+			return w.items(w.E), anyLess, nil
+		},
+		CursorType: anyCursorType,
+		EdgeCursor: func(edge any) any { return anyCurOf(edge.(item).C) },
+		EdgeFields: edgeFieldDefs(),
+	}))
 	cfg.AddQueryField("fwdOnly", apifu.Connection(&apifu.ConnectionConfig{
 		NamePrefix:      "FwdOnly",
 		Direction:       apifu.ConnectionDirectionForwardOnly,
@@ -443,7 +526,7 @@ type Req struct {
 	// a promise. (An untyped nil is not a slice: completeConnection answers it with an error.)
 	NilEmpty bool `json:"nil_empty"`
 	// which of the process's APIs serves the request (see newWorld), and — when not "" — which
-	// connection field instead of the plain <mode><Sync|Promise> one: tagCursor | fwdOnly | bwdOnly | customAll |
+	// connection field instead of the plain <mode><Sync|Promise> one: tagCursor | anyCursor | fwdOnly | bwdOnly | customAll |
 	// customFwd | customBwd (all of them ResolveAllEdges connections)
 	World int    `json:"world"`
 	Field string `json:"field,omitempty"`
@@ -676,6 +759,14 @@ func decode(s string) (c int, ok bool, panicked string) {
 			panicked = fmt.Sprint(p)
 		}
 	}()
+	if activeField == "anyCursor" {
+		v := apifu.DeserializeCursor(anyCursorType, s)
+		if v == nil {
+			return 0, false, ""
+		}
+		k, ok := anyKeyNumber(v.(anyCur).Key)
+		return k, ok, ""
+	}
 	if activeField == "tagCursor" {
 		v := apifu.DeserializeCursor(tagCursorType, s)
 		if v == nil {
